@@ -33,7 +33,9 @@ Fixpoint scan (fuel : nat) (raws : list Z) (buf : bytes) (q : queue) (idx : Z) (
   match fuel with
   | O => Err EFuel
   | S f =>
-    if idx + CCSDS_HEADER_LEN >=? len buf then Ok (tm, q)          (* break *)
+    if idx + CCSDS_HEADER_LEN >=? len buf then
+      (* re-insert the unconsumed tail, then break *)
+      if idx <? len buf then Ok (tm, q ++ [slice_from buf idx]) else Ok (tm, q)
     else
       do w <- struct_unpack 2 (slice buf idx (idx + 2));
       let current_packet_id := Z.land w PACKET_ID_MASK in
@@ -46,7 +48,8 @@ Fixpoint scan (fuel : nat) (raws : list Z) (buf : bytes) (q : queue) (idx : Z) (
 
 (* everything after the queue has been drained into one buffer *)
 Definition parse_buf (raws : list Z) (buf : bytes) : res (list bytes * queue) :=
-  if len buf <? 6 then Ok ([], [])
+  if len buf <? 6 then
+    if len buf >? 0 then Ok ([], [buf]) else Ok ([], [])
   else scan (S (length buf)) raws buf [] 0 [].
 
 Definition parse_space_packets (q : queue) (ids : list pid) : res (list bytes * queue) :=
@@ -73,3 +76,24 @@ Fixpoint run_ops (q : queue) (ops : list pop) : res (list (list bytes * queue)) 
     do rest <- run_ops q' r;
     Ok ((p, q') :: rest)
   end.
+
+(* ---- the code before the repair of D-C13-1 (commit 77c93e1), kept for the witness ---- *)
+Fixpoint scan0 (fuel : nat) (raws : list Z) (buf : bytes) (q : queue) (idx : Z) (tm : list bytes)
+  : res (list bytes * queue) :=
+  match fuel with
+  | O => Err EFuel
+  | S f =>
+    if idx + CCSDS_HEADER_LEN >=? len buf then Ok (tm, q)          (* break: tail dropped *)
+    else
+      do w <- struct_unpack 2 (slice buf idx (idx + 2));
+      let current_packet_id := Z.land w PACKET_ID_MASK in
+      if id_in current_packet_id raws then
+        do (result, idx', q', tm') <- handle_packet_id_match buf q idx tm;
+        if negb (result =? 0) then Ok (tm', q')
+        else scan0 f raws buf q' idx' tm'
+      else scan0 f raws buf q (idx + 1) tm
+  end.
+
+Definition parse_buf0 (raws : list Z) (buf : bytes) : res (list bytes * queue) :=
+  if len buf <? 6 then Ok ([], [])                                  (* buffer dropped *)
+  else scan0 (S (length buf)) raws buf [] 0 [].
